@@ -26,3 +26,4 @@ print('seqref self cross-check cases:', seqref.selfcheck(4))
 st, info = tlc.run_collmerge(3)
 print('TLC:', info if st is None else {k: info[k] for k in ('distinct_states', 'invariants')})
 " || exit 1
+PYTHONPATH=. /venv/bin/python -m pytest -q -p no:cacheprovider -W ignore::DeprecationWarning tests || exit 1
